@@ -404,7 +404,7 @@ def run(tier):
     import kanicheck
 
     kanicheck.discharge(ck.out, "rate_limit", {"c14_prefix_helpers": "extract_ipv6_subnet_{64,48,32} / extract_ipv4_subnet_24 are exact byte masks for every address"},
-                        timeout_s=900, logname="c14-kani-" + tier)
+                        timeout_s=2400, logname="c14-kani-" + tier)
     ck.out.bounds = [
         "Bucket::try_consume: one step from an arbitrary bucket (0<=tokens<=burst finite f64, count<=max, timestamps<=now), cfg 1<=max,burst<=1e6, window in {60s,3600s} (the two the limiter constructs)",
         "Engine::try_consume_key / JoinRateLimiter::check_join_allowed: one call from an ARBITRARY limiter state: LruCaches as SMT arrays over 128/32/8-bit keys, arbitrary address, below the 100k-key LRU bound",
